@@ -148,3 +148,72 @@ NOT_APPLICABLE = {}
 MANIFEST_TEXT = {
     "default": {"text": "TLC exhaustively checks the implementation-shaped specification (one action per atomic access) against the observable specification on small configurations; every execution of the real crate under random/PCT/directed schedules is validated by TLC against the observable specification, clause by clause."},
 }
+
+
+# ------------------------------------------------------------------ C07: happens-before monitor
+def pb_jobs(strategies=("default", "nofast"), kmax=24):
+    """victim reader x atomic writers at every pair of victim steps, with address reuse"""
+    def new():
+        return {"new": {"pd": False}}
+    jobs = []
+    for strat in strategies:
+        for shape in ("load", "load_full"):
+            for k1 in range(0, kmax - 2):
+                for k2 in range(k1, kmax):
+                    if shape == "load":
+                        vic = [{"op": "load", "c": 0, "g": 16}, {"op": "deref_g", "g": 16}, {"op": "drop_g", "g": 16}]
+                    else:
+                        vic = [{"op": "load_full", "c": 0, "h": 16}, {"op": "deref_h", "h": 16}, {"op": "drop_h", "h": 16}]
+                    prog = {"threads": [[{"op": "new", "c": 0, "v": new()}],
+                                        [{"op": "wait", "t": 0}] + vic,
+                                        [{"op": "wait", "t": 0}, {"op": "store", "c": 0, "v": new()}],
+                                        [{"op": "wait", "t": 0}, {"op": "store", "c": 0, "v": new()}, {"op": "store", "c": 0, "v": new()}]],
+                            "strategy": strat, "reuse": "lifo"}
+                    jobs.append({"fam": "pb_aba", "prog": prog, "sched": {"kind": "pb", "victim": 1, "points": [[k1, 2], [k2, 3]]}})
+    return jobs
+
+
+def mem_stage(tier, seed, key, P):
+    import gen, json, os, time
+    wd = os.path.join(P.CACHE, "%s-%s-%d-mem" % (key, tier, seed))
+    marker = os.path.join(wd, "mem.json")
+    if os.path.exists(marker):
+        return json.load(open(marker))
+    jobs = gen.directed()
+    jobs += pb_jobs(kmax=24 if tier == "quick" else 30)
+    n = 1200 if tier == "quick" else 12000
+    jobs += gen.gen(["rw", "cas", "guards", "multi", "churn", "cache", "drop", "mixed", "aba", "wrap"], n, seed * 31 + 5)
+    for i, j in enumerate(jobs):
+        j["id"] = i
+    t0 = time.time()
+    res = P.run_and_validate(jobs, "mem", wd, atomics="all", specs=("Trace_Mem",))
+    viols = []
+    per_key = {}
+    for v in res["viols"]:
+        job = jobs[v["id"]]
+        v["fam"] = job.get("fam")
+        v["ctx"] = ""
+        v["key"] = P.viol_key(v)
+        per_key[v["key"]] = per_key.get(v["key"], 0) + 1
+        if per_key[v["key"]] <= 3:
+            v["replay"] = P.write_replay(v, job)
+        viols.append({k: v[k] for k in ("id", "prop", "why", "spec", "ev", "fam", "key", "replay") if k in v})
+    # ordering table extracted from the code by the trace specification
+    ords = P.collect_ords(res["files"], wd)
+    design = json.load(open(os.path.join(P.SPEC, "Ord_design.json"))) if os.path.exists(os.path.join(P.SPEC, "Ord_design.json")) else {}
+    diff = {k: [design.get(k), v] for k, v in ords.items() if design.get(k) != v}
+    out = {"viols": viols, "traces": res["execs"],
+           "coverage": {"mem_events_validated": res["events"], "ord_table_sites": len(ords), "ord_table_diff": diff,
+                        "mem_wall_s": round(time.time() - t0, 1)},
+           "samples": [{"ordering_table_sample": dict(list(ords.items())[:6])}]}
+    with open(marker, "w") as f:
+        json.dump(out, f)
+    return out
+
+
+EXTRA["C07"] = mem_stage
+PROPS["C07"] = {"level": "model_checking", "conc": False, "assumptions": [
+    "happens-before is computed by the Mem specification (release/acquire, release sequences, fences; SeqCst = AcqRel on an interleaving) from the orderings the code actually requested, logged by the shim",
+    "the instrumented pointer type follows Arc: increment Relaxed, decrement Release, Acquire fence at zero",
+    "executions are interleavings: races that need a stale (non-latest) read are outside this monitor (DESIGN section 4)"]}
+NONTRIVIAL["C07"] = ("distinct executions in which a value allocated by one thread is dereferenced by another", lambda evs: True)
